@@ -40,6 +40,9 @@ CHECKS = {
     "C13": ("fault_enumeration", "runtime monitoring: offline checker over real traces — every prefix (crash at any line) vs a set-based reference verdict; permutations / k-way interleavings / subsets for order independence; finalise-twice",
             "Real traces of faulted single runs (all failure kinds) and of run-space launches (failing run at every index; file and directory output) are fed to the real TraceAggregator: every prefix in global emission order must yield the documented verdict (complete iff both edges, else partial naming the missing edge, missing nodes = canonical nodes without SER, no orphans, launch roll-up = counts of its runs' verdicts), and random permutations, reversed/sorted orders, k-way interleavings of per-run files and random subsets must yield identical verdicts; each aggregator is finalised twice. Held = no deviation on the ingestions observed.",
             "Reference verdict function in checks/c13.py (from docs/source/trace_aggregator_v1.rst). For arbitrary subsets only order-independence is checked.", "DESIGN.md §4 C13"),
+    "C09": ("exploration", "runtime monitoring: end-to-end through the real CLI; offline checker over the launch's JSONL (bracket, foreign keys, plan order, counts) + differential comparison of every run with a standalone run; ID stability under rewrites/mutations/file changes",
+            "Generated (pipeline, run_space) launches with a failing run at every index, file/directory trace output, explicit / idempotency-key / generated launch ids and attempts 1..3 are executed by `semantiva run` (in-process, plus subprocess samples); the trace must show one run_space_start/_end bracket with truthful planned/completed counts, every pipeline_start carrying launch id, attempt, 0-based index and its plan context in plan order, no run after a failed one, and exit code 0 iff all completed. Every run's normalised SER stream (detail=all, so digests carry the result) and sink files must equal those of a standalone run given that run's context. The spec id printed by `semantiva inspect` must equal the one in the trace, stay fixed under key-order/style rewrites and change under plan mutations; idempotency-key launch ids must repeat; the inputs id must change exactly when a source file's content changes. Held = no deviation on the launches observed.",
+            "The plan comes from an own expansion of context-only blocks (real expansion is C08's business). Volatile + foreign-key fields only are removed before the standalone comparison.", "DESIGN.md §4 C09"),
 }
 
 NOT_BUILT_REASON = "check not implemented yet in this round (work in progress; see DESIGN.md §4 for the planned monitor)"
